@@ -113,7 +113,7 @@ def run (env : Env) : Stmt → List String
   | .emit t _ => [t]
   | .splice b => env.spliced b
   | .seq a b => run env a ++ run env b
-  | .ite c t e => if c.eval env then run env t else run env e
+  | .ite c t e => bif c.eval env then run env t else run env e
   | .each c b => (List.replicate (env.val c).count (run env b)).flatten
 
 /-! ## static readings of a body -/
